@@ -297,6 +297,7 @@ var C15Scenarios = []c15Scenario{
 	{"rowgroups-pipelined", "as rowgroups, but each row group is committed (in order) while later ones are still being filled", scenRowGroupsPipelined, false},
 	{"rowgroups-reuse", "k row group writers from BeginRowGroup filled concurrently, committed in order and reused after Commit for further rounds (Commit: \"the row group will be empty and can be reused\"), plain and encrypting writers, rows written through the parent writer between rounds; the file must decrypt and hold exactly the rows written, row group by row group", scenRowGroupsReuse, false},
 	{"keptrows", "N goroutines on one *parquet.File each read part of a row group (stopping in the middle of a page), close their reader and keep the rows (byte-array values stay valid after the reader is gone: their buffer is detached from the pools) while the other goroutines go on reading", scenKeptRows, false},
+	{"keptviews", "N goroutines on one *parquet.File read rows through row readers over the file's row groups and over every public view of them (ConvertRowGroup with a target that only moves columns, MultiRowGroup, MergeRowGroups without sorting columns, AsyncRowGroup, compositions), made by view.Rows(), NewRowGroupRowReader and NewColumnChunkRowReader(ColumnChunks()); they keep every row while reading on across page boundaries, seeking and closing; every kept row must hold the values written (from the Go input, by column path) at hand-over and at the end, while the other goroutines go on reading", scenKeptViews, false},
 	{"asyncfile", "N goroutines reading one file opened in ReadModeAsync (rows and seeks), compared with sync mode", scenAsyncFile, false},
 	{"schema", "one fresh *Schema (lazy state not yet built) and the shared codecs used from N goroutines at once", scenSchema, false},
 	{"samekey", "process-wide registries and caches hit by N goroutines with the SAME never-before-seen key at nearly the same moment (one ReadBufferSize, one Go struct type for SchemaOf, one large Go struct type written through the reflection path of the writers: struct field cache), late-comers arriving while the first goroutine builds the entry; what each goroutine wrote is checked against its input", scenSameKey, true},
